@@ -117,6 +117,32 @@ NULL_INPUT_EXPRS = ["1 + 2", "'a' + 'b'", "[1, 2].map(x, x * 2)", "true", "false
                     "undefined_name", "3u", "'é'", "[true, false].all(x, x)", "1 == 1 && 'a'", "!true", "1 in [1]"]
 
 
+def syntax_error_locations(run: common.Run, report) -> None:
+    """A complete expression followed by a second operand with no operator between them: the parser cannot accept the second operand's first token, whose
+    line and column are known by construction (not taken from the library's own error object)."""
+    firsts = ["1", "[1, 2]", "x", "'a'", "(1 + 2)", "f(1)", "true", "1 +\n 2", "[1,\n 2,\n 3]"]
+    seconds = ["true", "false", "null", "3", "'b'", "y", "1.5", "2u", "b'x'", "true || y", "false ? 1 : 2"]  # (not [ or {: "x [4]" is an index, "x {..}" a message)
+    gaps = [" ", "  ", "\n", "\n   ", " \t "]
+    i = 0
+    for a in firsts:
+        for b in seconds:
+            gap = gaps[i % len(gaps)]
+            i += 1
+            text = a + gap + b
+            before = a + gap
+            line = before.count("\n") + 1
+            col = len(before) - (before.rfind("\n") + 1) + 1
+            run.tick()
+            run.nt(("syntax", text))
+            run.event("syntax-error-location-case")
+            status, out, err = run_cli(["-n", text])
+            case = {"mode": "syntax", "text": text, "line": line, "column": col}
+            if status != 1:
+                report(f"syntax-error-status-{status}", case, f"{text!r}: status {status}, expected 1")
+            elif f":{line}:{col}" not in err:
+                report("syntax-error-message-does-not-locate-the-offending-token", case, f"{text!r}: stderr {err[:160]!r} lacks :{line}:{col}")
+
+
 def api_outcome(expr: str, binds: Dict[str, Any]) -> Tuple:
     return cel.evaluate(expr, binds, "I", want_value=True)
 
@@ -256,7 +282,9 @@ def check_slurp(run: common.Run, expr: str, doc: Any, b: bool, report) -> None:
 def replay(run: common.Run, case: dict, key: str = ""):
     problems = []
     rep = lambda k, c, d: problems.append((k, d))
-    if case["mode"] == "null-input":
+    if case["mode"] == "syntax":
+        syntax_error_locations(run, rep)
+    elif case["mode"] == "null-input":
         args = []
         for name, tname, text in case["args"]:
             kind = {"int": "int", "int64_value": "int", "uint": "uint", "uint64_value": "uint", "double": "double", "double_value": "double", "bool": "bool", "bool_value": "bool",
@@ -350,6 +378,7 @@ def main(run: common.Run) -> None:
         run.event("replayed")
     for e in NULL_INPUT_EXPRS:
         check_null_input(run, e, [], run.fail)
+    syntax_error_locations(run, run.fail)
     try:
         if run.tier == "quick":
             campaign(run)
